@@ -342,7 +342,8 @@ Eval(e, env) ==
          ELSE IF a.v.t = "real" THEN (IF a.v.c = "fin" /\ a.v.n # 0 THEN Val(RealV(-a.v.n, a.v.d))
                                        ELSE IF a.v.c = "fin" THEN Val(NZero)
                                        ELSE IF a.v.c = "nzero" THEN Val(RealV(0, 1))
-                                       ELSE IF a.v.c = "pinf" THEN Val(NInf) ELSE IF a.v.c = "ninf" THEN Val(PInf) ELSE Val(NaN))
+                                       ELSE IF a.v.c = "pinf" THEN Val(NInf) ELSE IF a.v.c = "ninf" THEN Val(PInf)
+                                       ELSE IF a.v.c = "nan" THEN Val(NaN) ELSE IF a.v.c = "p63" THEN Val(N63) ELSE Val(P63))
          ELSE Err
     [] e.op = "not" ->
          LET a == Eval(e.a, env) IN IF a.k # "val" THEN a ELSE
